@@ -50,6 +50,63 @@ Theorem C20_unitary_step_sound_nosidecond_refuted :
 Proof. exact unitary_step_sound_nosidecond_refuted. Qed.
 Print Assumptions C20_unitary_step_sound_nosidecond_refuted.
 
+(* What exactly is lost: if the coinciding remaining index q is neither a target
+   nor present in the rest of the term, the input's value is the output's value
+   times the number of orbitals in the range of q. *)
+Theorem C20_unitary_step_square_value :
+  forall (S : Scalar) (T : tmodel S) name tg t p q t' r0,
+    unitary_step name tg t p q q t' ->
+    same_sort q p = true ->
+    orthogonal S T name (irange S T p) ->
+    (forall x, In x tg -> In (r0 x) (irange S T x)) ->
+    ~ In q tg -> ~ In q (term_idx t') ->
+    eval_term S T tg r0 t = kmul S (kcount S (irange S T q)) (eval_term S T tg r0 t').
+Proof. exact unitary_step_square_value. Qed.
+Print Assumptions C20_unitary_step_square_value.
+
+(* The same through the whole recursion of the model of simplify_term_unitary. *)
+Theorem C20_unitary_iter_value_refuted :
+  exists (S : Scalar) (T : tmodel S) name tg t t' r0,
+    unitary_iter 3 name (Some tg) t = Some t' /\
+    (forall sp sn, orthogonal S T name (rng T sp sn)) /\
+    eval_term S T tg r0 t <> eval_term S T tg r0 t'.
+Proof. exact unitary_iter_value_refuted. Qed.
+Print Assumptions C20_unitary_iter_value_refuted.
+
+(* Einstein convention: a step whose remaining indices differ (and whose delta
+   is not absorbed by an equal one) keeps the Einstein target indices, and
+   preserves the value with each side read under its own Einstein targets. *)
+Theorem C20_einstein_targets_step :
+  forall name tg t p q r t',
+    unitary_step name tg t p q r t' ->
+    q <> r -> delta_zero q r = false -> existsb (is_delta_fac q r) (tfacs t) = false ->
+    forall x, In x (einstein_targets t') <-> In x (einstein_targets t).
+Proof. exact einstein_targets_step. Qed.
+Print Assumptions C20_einstein_targets_step.
+
+Theorem C20_unitary_step_sound_einstein :
+  forall (S : Scalar) (T : tmodel S) name t p q r t' r0,
+    unitary_step name (einstein_targets t) t p q r t' ->
+    same_sort q p = true -> same_sort r p = true ->
+    orthogonal S T name (irange S T p) ->
+    (forall x, In x (einstein_targets t) -> In (r0 x) (irange S T x)) ->
+    q <> r -> existsb (is_delta_fac q r) (tfacs t) = false ->
+    eval_term S T (einstein_targets t) r0 t = eval_term S T (einstein_targets t') r0 t'.
+Proof. exact unitary_step_sound_einstein. Qed.
+Print Assumptions C20_unitary_step_sound_einstein.
+
+(* evaluate_deltas=True as coded (func.evaluate_deltas(res.sympy) without the
+   provided target indices) does not preserve the value: U_pq U_pr T_q with
+   targets (q, r) becomes T_r. *)
+Theorem C20_simplify_ed_as_coded_refuted :
+  exists (S : Scalar) (T : tmodel S) name tg t t' r0,
+    simplify_ed_as_coded 3 name (Some tg) t = Some t' /\
+    (forall sp sn, orthogonal S T name (rng T sp sn)) /\
+    (forall x, In x tg -> In (r0 x) (irange S T x)) /\
+    eval_term S T tg r0 t <> eval_term S T tg r0 t'.
+Proof. exact simplify_ed_as_coded_refuted. Qed.
+Print Assumptions C20_simplify_ed_as_coded_refuted.
+
 (* A successful call of the model of simplify_term_unitary is a step of the
    relation ... *)
 Theorem C20_unitary_pass_sound :
